@@ -15,6 +15,10 @@
 #include "stream_decoder.h"
 #include "index.h"
 #include "outqueue.h"
+#include "verif_hooks.h"
+
+/// Index of a worker thread for VERIF_EV()
+#define VERIF_THR(thr) ((thr) - (thr)->coder->threads)
 
 
 typedef enum {
@@ -336,6 +340,7 @@ worker_enable_partial_update(void *thr_ptr)
 
 	mythread_sync(thr->mutex) {
 		thr->partial_update = PARTIAL_START;
+		VERIF_EV("EnablePartial", thr->coder, VERIF_THR(thr), 0, 0, 0, 0);
 		mythread_cond_signal(&thr->cond);
 	}
 }
@@ -355,11 +360,14 @@ next_loop_lock:
 next_loop_unlocked:
 
 	if (thr->state == THR_IDLE) {
+		VERIF_EV("WCheck", thr->coder, VERIF_THR(thr), 0, thr->state, 0, 0);
 		mythread_cond_wait(&thr->cond, &thr->mutex);
+		VERIF_EV("WWake", thr->coder, VERIF_THR(thr), 0, 0, 0, 0);
 		goto next_loop_unlocked;
 	}
 
 	if (thr->state == THR_EXIT) {
+		VERIF_EV("WCheck", thr->coder, VERIF_THR(thr), 1, thr->state, 0, 0);
 		mythread_mutex_unlock(&thr->mutex);
 
 		lzma_free(thr->in, thr->allocator);
@@ -386,10 +394,15 @@ next_loop_unlocked:
 	partial_update = thr->partial_update;
 
 	if (in_filled == thr->in_pos && partial_update != PARTIAL_START) {
+		VERIF_EV("WCheck", thr->coder, VERIF_THR(thr), 0, thr->state,
+				in_filled, partial_update);
 		mythread_cond_wait(&thr->cond, &thr->mutex);
+		VERIF_EV("WWake", thr->coder, VERIF_THR(thr), 0, 0, 0, 0);
 		goto next_loop_unlocked;
 	}
 
+	VERIF_EV("WCheck", thr->coder, VERIF_THR(thr), 2, thr->state,
+			in_filled, partial_update);
 	mythread_mutex_unlock(&thr->mutex);
 
 	// Pass the input in small chunks to the Block decoder.
@@ -405,6 +418,9 @@ next_loop_unlocked:
 			thr->in, &thr->in_pos, in_filled,
 			thr->outbuf->buf, &thr->out_pos,
 			thr->outbuf->allocated, LZMA_RUN);
+
+	VERIF_EV("WDecode", thr->coder, VERIF_THR(thr), ret,
+			thr->in_pos, thr->out_pos, 0);
 
 	if (ret == LZMA_OK) {
 		if (partial_update != PARTIAL_DISABLED) {
@@ -427,6 +443,8 @@ next_loop_unlocked:
 			mythread_sync(thr->coder->mutex) {
 				thr->outbuf->pos = thr->out_pos;
 				thr->outbuf->decoder_in_pos = thr->in_pos;
+				VERIF_EV("WPublish", thr->coder, VERIF_THR(thr),
+						thr->out_pos, thr->in_pos, 0, 0);
 				mythread_cond_signal(&thr->coder->cond);
 			}
 		}
@@ -454,6 +472,8 @@ next_loop_unlocked:
 
 		if (thr->state != THR_EXIT)
 			thr->state = THR_IDLE;
+
+		VERIF_EV("WFinThr", thr->coder, VERIF_THR(thr), thr->state, 0, 0, 0);
 	}
 
 	// Free the input buffer. Don't update in_size as we need
@@ -466,6 +486,8 @@ next_loop_unlocked:
 		lzma_free(thr->in, thr->allocator);
 		thr->in = NULL;
 	}
+
+	VERIF_EV("WFreeIn", thr->coder, VERIF_THR(thr), thr->in == NULL, 0, 0, 0);
 
 	mythread_sync(thr->coder->mutex) {
 		// Move our progress info to the main thread.
@@ -499,6 +521,9 @@ next_loop_unlocked:
 			thr->coder->threads_free = thr;
 		}
 
+		VERIF_EV("WFinCoder", thr->coder, VERIF_THR(thr), ret,
+				thr->out_pos, thr->in_pos,
+				thr->coder->threads_free == thr);
 		mythread_cond_signal(&thr->coder->cond);
 	}
 
@@ -513,12 +538,18 @@ threads_end(struct lzma_stream_coder *coder, const lzma_allocator *allocator)
 	for (uint32_t i = 0; i < coder->threads_initialized; ++i) {
 		mythread_sync(coder->threads[i].mutex) {
 			coder->threads[i].state = THR_EXIT;
+			VERIF_EV("EndSignal", coder, i, 0, 0, 0, 0);
 			mythread_cond_signal(&coder->threads[i].cond);
 		}
 	}
 
 	for (uint32_t i = 0; i < coder->threads_initialized; ++i)
 		mythread_join(coder->threads[i].thread_id);
+
+	for (uint32_t i = 0; i < coder->threads_initialized; ++i)
+		VERIF_EV("EndJoin", coder, i, 0, 0, 0, 0);
+
+	VERIF_EV("EndDone", coder, -1, 0, 0, 0, 0);
 
 	lzma_free(coder->threads, allocator);
 	coder->threads_initialized = 0;
@@ -549,9 +580,11 @@ threads_stop(struct lzma_stream_coder *coder)
 		// need to signal coder->threads[i].cond.
 		mythread_sync(coder->threads[i].mutex) {
 			coder->threads[i].state = THR_IDLE;
+			VERIF_EV("Stop", coder, i, 0, 0, 0, 0);
 		}
 	}
 
+	VERIF_EV("StopDone", coder, -1, 0, 0, 0, 0);
 	return;
 }
 
@@ -692,6 +725,9 @@ read_output_and_wait(struct lzma_stream_coder *coder,
 			// Check if lzma_outq_read reported an error from
 			// the Block decoder.
 			if (ret != LZMA_OK)
+				VERIF_EV("RW", coder, -1, 0, ret, *out_pos, 0);
+
+			if (ret != LZMA_OK)
 				break;
 
 			// If the output buffer is now full but it wasn't full
@@ -708,6 +744,7 @@ read_output_and_wait(struct lzma_stream_coder *coder,
 				// from worker threads immediately.
 				if (coder->fail_fast) {
 					ret = coder->thread_error;
+					VERIF_EV("RW", coder, -1, 1, ret, *out_pos, 0);
 					break;
 				}
 
@@ -753,10 +790,14 @@ read_output_and_wait(struct lzma_stream_coder *coder,
 						|| coder->threads_free
 							!= NULL)) {
 				*input_is_possible = true;
+				VERIF_EV("RW", coder, -1, 2, ret, *out_pos, 0);
 				break;
 			}
 
 			// If the caller doesn't want us to block, return now.
+			if (!waiting_allowed)
+				VERIF_EV("RW", coder, -1, 3, ret, *out_pos, 0);
+
 			if (!waiting_allowed)
 				break;
 
@@ -766,6 +807,7 @@ read_output_and_wait(struct lzma_stream_coder *coder,
 			// output coming from the queue.
 			if (lzma_outq_is_empty(&coder->outq)) {
 				assert(input_is_possible == NULL);
+				VERIF_EV("RW", coder, -1, 3, ret, *out_pos, 1);
 				break;
 			}
 
@@ -786,6 +828,7 @@ read_output_and_wait(struct lzma_stream_coder *coder,
 			// in the queue.
 			if (lzma_outq_is_readable(&coder->outq)) {
 				assert(*out_pos == out_size);
+				VERIF_EV("RW", coder, -1, 3, ret, *out_pos, 2);
 				break;
 			}
 
@@ -828,8 +871,14 @@ read_output_and_wait(struct lzma_stream_coder *coder,
 
 				if (coder->thr->outbuf->decoder_in_pos
 						== coder->thr->in_filled)
+					VERIF_EV("RW", coder, -1, 3, ret, *out_pos, 3);
+
+				if (coder->thr->outbuf->decoder_in_pos
+						== coder->thr->in_filled)
 					break;
 			}
+
+			VERIF_EV("RW", coder, -1, 4, ret, *out_pos, 0);
 
 			// Wait for input or output to become possible.
 			if (coder->timeout != 0) {
@@ -851,12 +900,15 @@ read_output_and_wait(struct lzma_stream_coder *coder,
 						&coder->mutex,
 						wait_abs) != 0) {
 					ret = LZMA_TIMED_OUT;
+					VERIF_EV("RWTimeout", coder, -1, 0, 0, 0, 0);
 					break;
 				}
 			} else {
 				mythread_cond_wait(&coder->cond,
 						&coder->mutex);
 			}
+
+			VERIF_EV("RWWake", coder, -1, 0, 0, 0, 0);
 		} while (ret == LZMA_OK);
 	}
 
@@ -1022,6 +1074,9 @@ stream_decode_mt(void *coder_ptr, const lzma_allocator *allocator,
 	const bool waiting_allowed = action == LZMA_FINISH
 			|| (*in_pos == in_size && !coder->out_was_filled);
 	coder->out_was_filled = false;
+
+	VERIF_EV("Call", coder, -1, action, in_size - *in_pos,
+			out_size - *out_pos, waiting_allowed);
 
 	while (true)
 	switch (coder->sequence) {
@@ -1485,10 +1540,15 @@ stream_decode_mt(void *coder_ptr, const lzma_allocator *allocator,
 		coder->thr->outbuf = lzma_outq_get_buf(
 				&coder->outq, coder->thr);
 
+		VERIF_EV("TiGet", coder, VERIF_THR(coder->thr),
+				coder->thr->in_size,
+				coder->block_options.uncompressed_size, 0, 0);
+
 		// Start the decoder.
 		mythread_sync(coder->thr->mutex) {
 			assert(coder->thr->state == THR_IDLE);
 			coder->thr->state = THR_RUN;
+			VERIF_EV("TiStart", coder, VERIF_THR(coder->thr), 0, 0, 0, 0);
 			mythread_cond_signal(&coder->thr->cond);
 		}
 
@@ -1497,6 +1557,7 @@ stream_decode_mt(void *coder_ptr, const lzma_allocator *allocator,
 		mythread_sync(coder->mutex) {
 			lzma_outq_enable_partial_output(&coder->outq,
 					&worker_enable_partial_update);
+			VERIF_EV("TiPartial", coder, -1, 0, 0, 0, 0);
 		}
 
 		coder->sequence = SEQ_BLOCK_THR_RUN;
@@ -1524,9 +1585,14 @@ stream_decode_mt(void *coder_ptr, const lzma_allocator *allocator,
 		lzma_bufcpy(in, in_pos, in_size, coder->thr->in,
 				&cur_in_filled, coder->thr->in_size);
 
+		VERIF_EV("Copy", coder, VERIF_THR(coder->thr),
+				cur_in_filled - coder->thr->in_filled, 0, 0, 0);
+
 		// Tell the thread how much we copied.
 		mythread_sync(coder->thr->mutex) {
 			coder->thr->in_filled = cur_in_filled;
+			VERIF_EV("Publish", coder, VERIF_THR(coder->thr),
+					cur_in_filled, 0, 0, 0);
 
 			// NOTE: Most of the time we are copying input faster
 			// than the thread can decode so most of the time
